@@ -100,7 +100,7 @@ pub struct W4Cfg {
 pub fn cfg_to_json(c: &W4Cfg) -> Value {
     json!({
         "ts": c.rig.ts, "baud": c.rig.baud, "max_retry": c.rig.max_retry, "min_tsdr": c.rig.min_tsdr,
-        "watchdog_ms": c.rig.watchdog_ms, "slot_bits": c.rig.slot_bits, "fixed_slots": c.rig.fixed_slots, "operate": c.rig.operate,
+        "watchdog_ms": c.rig.watchdog_ms, "slot_bits": c.rig.slot_bits, "fixed_slots": c.rig.fixed_slots, "operate": c.rig.operate, "origin_us": c.rig.origin_us,
         "periphs": c.rig.periphs.iter().map(|p| json!({
             "addr": p.addr, "ident": p.ident, "sync": p.sync, "freeze": p.freeze, "groups": p.groups,
             "user_prm": p.user_prm.as_ref().map(|b| hex(b)), "config": p.config.as_ref().map(|b| hex(b)),
@@ -140,6 +140,7 @@ pub fn cfg_from_json(v: &Value) -> W4Cfg {
             periphs,
             fixed_slots: v["fixed_slots"].as_u64().map(|x| x as usize),
             operate: v["operate"].as_bool().unwrap(),
+            origin_us: v["origin_us"].as_i64().unwrap_or(0),
         },
         slave_dev: v["slave_dev"].as_array().unwrap().iter().map(|x| u(x) as u8).collect(),
         gc_every_visit: v["gc_every_visit"].as_bool().unwrap(),
